@@ -32,7 +32,7 @@ RESULT_ATTRS = ("Etot", "force", "dm", "q", "Hf")
 # over-reach, not defects): `element_outside_table` (He is accepted by MNDO: the shipped CSV has a row for it) and
 # `active_beyond_nstates` (accepted whenever the Davidson solver returns a completed degenerate shell with more roots than
 # requested, e.g. P2 with n_states=2 returns 4). Their builders are kept below but are not drawn.
-OPS = ["unsorted", "odd_rhf", "uhf_parity", "too_many_electrons", "negative_spin_count", "negative_electron_count", "uhf_pulay", "uhf_ksa", "uhf_sp2",
+OPS = ["unsorted", "unsorted_heavy_only", "odd_rhf", "uhf_parity", "too_many_electrons", "uhf_alpha_exceeds_basis", "negative_spin_count", "negative_electron_count", "uhf_pulay", "uhf_ksa", "uhf_sp2",
        "uhf_excited", "uhf_pm6", "hetero_rpa", "hetero_excited_analytical", "active_without_excited", "remove_com_mode"]
 
 
@@ -64,6 +64,24 @@ def _build(case):
             return None
         order = sorted(range(len(Z)), key=lambda i: Z[i])  # ascending: violates the non-increasing convention
         req["rows"] = [([Z[i] for i in order], x[order])]
+    elif op == "unsorted_heavy_only":
+        # heavy atoms in ascending order, hydrogens still last: the coarse layout heavy | hydrogen | padding is respected,
+        # only the documented non-increasing atomic-number order is violated
+        heavy = [i for i in range(len(Z)) if Z[i] > 1]
+        if len({Z[i] for i in heavy}) < 2:
+            return None
+        order = sorted(heavy, key=lambda i: Z[i]) + [i for i in range(len(Z)) if Z[i] == 1]
+        req["rows"] = [([Z[i] for i in order], x[order])]
+    elif op == "uhf_alpha_exceeds_basis":
+        # the total electron count fits the basis (<= 2*norb) but the alpha count alone does not: n_alpha = norb + 1
+        sp["UHF"] = True
+        na = norb + 1
+        nb = max(0, min(norb, nel - na)) if nel - na >= 0 else 0
+        total = na + nb
+        if total > 2 * norb or nb < 0:
+            return None
+        req["charges"] = [nel - total]
+        req["mult"] = [na - nb + 1]
     elif op == "odd_rhf":
         req["charges"] = [1 if k % 2 == 0 else -1]
     elif op == "uhf_parity":
@@ -194,7 +212,7 @@ class Reject(SubCheck):
 @st.composite
 def _pos_case(draw):
     method = draw(st.sampled_from(M.METHODS_SP))
-    kind = draw(st.sampled_from(["stretch", "stretch", "compress", "charged", "edge"]))
+    kind = draw(st.sampled_from(["stretch", "stretch", "compress", "charged", "edge", "uhf_ion", "uhf_ion"]))
     pool = M.names(method, ("neutral",), 6, 2)
     if kind == "edge":
         edge = {max(M.POOL[method]), min(z for z in M.POOL[method] if z > 1), 11 if 11 in M.POOL[method] else 3, 12 if 12 in M.POOL[method] else 4}
@@ -208,12 +226,25 @@ def _pos_case(draw):
         case["factor"] = draw(st.sampled_from([0.8, 0.7, 0.6, 0.5]))
     elif kind == "charged":
         case["charge"] = draw(st.sampled_from([-4, -2, 2, 4]))
+    elif kind == "uhf_ion":
+        # open-shell, possibly highly charged ions incl. an EMPTY beta channel, optionally batched with a (stretched) partner
+        nel = M.n_electrons(tpl)
+        left = draw(st.sampled_from([1, 2, 2, 3, 4]))
+        left = min(left, nel)
+        case["charge"] = nel - left
+        case["mult"] = draw(st.sampled_from([m for m in (1, 2, 3, 4, 5) if (left - (m - 1)) % 2 == 0 and left - (m - 1) >= 0] or [left + 1]))
+        case["conv"] = draw(st.sampled_from([[1], [1], [1], [0, 0.2]]))
+        if draw(st.integers(0, 9)) < 7:
+            # an ion with an empty spin channel that is still iterating next to a partner whose SCF needs strong
+            # re-normalisation (stretched geometry) is where per-spin bookkeeping of the batch solvers is stressed most
+            case["mate"] = {"method": method, "tpl": draw(st.sampled_from(pool)), "amp": 0.0}
+            case["mate_factor"] = draw(st.sampled_from([1.5, 2.0, 2.0, 3.0]))
     return case
 
 
 class AcceptFinite(SubCheck):
     name = "accept_finite"
-    budget = {"quick": 700, "thorough": 15000}
+    budget = {"quick": 1000, "thorough": 20000}
     weight = 3.0
 
     def strategy(self, tier):
@@ -236,9 +267,49 @@ class AcceptFinite(SubCheck):
         q = case.get("charge", 0)
         nel = sum(M.VALENCE[z] for z in Z) - q
         norb = sum(1 if z == 1 else 4 for z in Z)
+        from ..seqm_api import pad_batch, run_sp
+
+        if case["kind"] == "uhf_ion":
+            mult = case["mult"]
+            na, nb = (nel + mult - 1) // 2, (nel - mult + 1) // 2
+            if nb < 0 or na > norb or (nel + mult - 1) % 2:
+                return Outcome.inconclusive("charge_not_representable", labels)
+            labels.append("beta_empty" if nb == 0 else "beta_nonempty")
+            rows, ch, mu = [(Z, x)], [q], [mult]
+            if case.get("mate"):
+                z2, x2 = M.geometry(case["mate"])
+                c2 = x2.mean(axis=0)
+                rows.append((list(z2), c2 + case["mate_factor"] * (x2 - c2)))
+                ch.append(0)
+                mu.append(1)
+                labels.append("batched")
+            Sx, X = pad_batch(rows)
+            try:
+                r = run_sp(Sx, X, method=method, eps=1e-7, conv=case["conv"], charges=np.array(ch), mult=np.array(mu), uhf=True)
+            except Exception as exc:
+                if "eigh" in str(exc):
+                    # an eigensolver failure that is reported loudly is not a silent NaN; but it must not be CAUSED by
+                    # batching two requests that are individually fine
+                    alone_ok = True
+                    for k in range(len(rows)):
+                        try:
+                            run_sp([rows[k][0]], [rows[k][1]], method=method, eps=1e-7, conv=case["conv"], charges=ch[k], mult=mu[k], uhf=True)
+                        except Exception:
+                            alone_ok = False
+                    if alone_ok and len(rows) > 1:
+                        return Outcome.fail("batch_of_individually_valid_requests_rejected", f"{type(exc).__name__}: {str(exc)[:120]} although every member runs alone", labels, True)
+                    return Outcome.inconclusive("eigensolver_failure_reported_loudly", labels)
+                return Outcome.fail(f"valid_input_rejected:{case['kind']}:{type(exc).__name__}", f"valid request raised {type(exc).__name__}: {str(exc)[:200]}", labels, True)
+            nc = notconv(r)
+            E, F, qq, Hf = tonp(r.mol.Etot), tonp(r.mol.force), tonp(r.mol.q), tonp(r.mol.Hf)
+            for b in range(len(rows)):
+                fin = all(np.isfinite(a[b]).all() for a in (E, F, qq, Hf))
+                if not fin and not nc[b]:
+                    return Outcome.fail("nonfinite_without_flag:uhf", f"row {b}: NaN/inf in results with notconverged False (charges {ch}, mult {mu})", labels, True)
+            labels.append("flag:" + ("notconverged" if nc.any() else "converged"))
+            return Outcome.ok(True, labels)
         if nel < 2 or nel > 2 * norb - 2 or nel % 2:
             return Outcome.inconclusive("charge_not_representable", labels)
-        from ..seqm_api import run_sp
 
         try:
             # one call through the wrapper that keeps the driver object (the non-convergence flag lives on it)
